@@ -68,6 +68,9 @@ pub fn prop(c: &Case, log: &mut CaseLog) -> Verdict {
     log.label_if(v.comments > 0, "has-comment");
     log.label_if(v.case_flips > 0, "case-flip");
     log.label_if(v.crlf, "crlf");
+    log.label_if(v.features.contains("uppercase_true"), "bool-case-flip");
+    let vt: String = v.variant.files.values().cloned().collect::<Vec<_>>().join("\n");
+    log.label_if(["TrUe", "FaLsE"].iter().any(|w| vt.contains(w)), "bool-mixed-case");
     log.nontrivial = v.slots_changed >= 3 && (v.comments > 0 || v.case_flips > 0);
     let relevant: BTreeSet<String> = v.features.iter().filter(|f| matches!(f.as_str(), "empty_line_comment")).cloned().collect();
     let mut sig = |k: &str| {
